@@ -9,6 +9,11 @@ CLAIMS = {
   text="Machine-checked proofs over the line state machine model (Delta.v): from any state a hunk's header and body lines extend the rendered history by exactly one item each, in input order, with only the marker column removed and tabs expanded (C01_hunk_once_in_order); the history is append-only along every execution of the unified view under one decidable side condition that every generated git diff satisfies (C01_history_append_only), hence each hunk appears once, contiguously, in the final output (C01_hunk_in_final_output). The hand-written model is tied to the code by running generated git diffs of every section kind x options through the real binary and comparing visible rows with the rendering of the extracted model's items; a model-free token oracle (each body line exactly once, in order, inside its file's section, text intact) is evaluated on the binary's output.",
   note="Trusted: Coq kernel; correspondence harness, item renderer (tools/gdiff.py) and terminal decoder; model scope = git two-way diffs with non-raw header styles (combined diffs / conflict regions / plain diff -u: black-box oracle only, see DESIGN). No axioms.",
   design="§6 C01"),
+ "C02": dict(
+  technique="Coq proof (row-accounting invariant over the state machine model with color_only: one row per input line for every input under a decidable side condition) + black-box line-count / per-line text oracle over option sets",
+  text="Machine-checked proof over the line state machine model with color_only = true: for every input (arbitrary lines) each step adds exactly one row (rendered, buffered or pending hunk header) and the final output has exactly as many rows as the input has lines, provided a hunk-header line is not directly followed by a line that ends the hunk before it began (C02_line_for_line, C02_one_row_per_line; the side condition is decidable and evaluated on the generated inputs). On the real binary: output line count = input line count for every generated diff/log (plain or coloured like color.ui=always) x 26 option sets containing --color-only (side-by-side, line numbers, decorations and decoration keywords inside style strings, omit styles, navigate, emulation presets, hyperlinks), and per-line visible text equality whenever no implied preset is explicitly overridden; the model's rendering is compared with the binary's rows.",
+  note="Trusted: Coq kernel; harness; model scope as for C01. The per-line text clause is decided on the implementation by the oracle. No axioms.",
+  design="§6 C02"),
  "C10": dict(
   technique="Coq proof (section reset, output never read back: prepend commutes with every step, end-of-input mirrors the section boundary) + black-box concatenation law on all ordered pairs of section kinds + repeated-run determinism",
   text="Machine-checked proofs over the line state machine model: a `diff ` line resets every per-file field to a function of that line alone, from any state (C10_section_reset); prepending anything to the written output commutes with every step, so earlier sections cannot influence later ones through the output (C10_never_reads_output); end of input flushes exactly what the next section boundary flushes (C10_eof_mirrors_boundary). On the real binary: stdout(A++B[++C]) = stdout(A)++stdout(B)[++stdout(C)] bytewise for every ordered pair of 13 section kinds x kind of last line x same/different paths x modes (unified, side-by-side, line numbers, decorations, navigate) and random longer sequences; byte-identical output over repeated runs under gitconfigs that exercise hash-map iteration, incl. --show-config.",
